@@ -70,6 +70,12 @@ func NewSimReader(t *Tape, data []byte) *SimReader {
 // PlainReader delivers everything the caller asks for.
 func PlainReader(data []byte) *SimReader { return &SimReader{data: data, ErrAt: -1} }
 
+// DataEOFReader delivers everything the caller asks for and reports io.EOF together with the last bytes
+// (as compress/gzip, HTTP bodies and iotest.DataErrReader do).
+func DataEOFReader(data []byte) *SimReader {
+	return &SimReader{data: data, ErrAt: -1, EOFWithData: true}
+}
+
 func (r *SimReader) Offset() int { return r.off }
 
 func (r *SimReader) Read(p []byte) (int, error) {
